@@ -316,3 +316,9 @@ def check(cx):
                "layout on both sides); otherwise every reopen turns some rolled-back transactions into committed ones", floor=4, skip=("drops-large-ids",))
     cx.include(c09, {"C09.1"}, "C08.12", "shared with C09.1: a checkpoint writes page zero on every path before it cuts the log; the header carries the "
                "aborted bitmap and the transaction counters, and the log records that could restore them are gone after the cut", floor=5)
+
+    # ---- C08.14 (construct shared with C17.3) ------------------------------------------------------------------------------
+    from . import c17 as _c17
+    cx.include(_c17, {"C17.3"}, "C08.14", "shared with C17.3: where push places a record and when it opens a new block - Database::open appends the "
+               "recovery transaction's BEGIN before it analyses the log, so a push that counts a block the file does not hold makes "
+               "the analysis read past the end and open() fail", floor=4)
